@@ -662,6 +662,8 @@ func (c *Ctx) checkHashable(r *Report) {
 				continue
 			}
 			tn := names[tag]
+			r.Check(tn != "REFERENCE", "C04.R4", fname, fmt.Sprintf("tag %s accepted outright is not an alias", tn), c.Pos(ifi.Pos()),
+				"Hashable accepts references: a reference compares by (name, environment), not by the value it currently denotes, so a memoised call keyed on it returns a stale result after the variable is assigned (and the possibly-Reference arguments stored in the cache key are accepted by C06.R4 on the strength of this test)")
 			for _, ct := range tagTypes[tag] {
 				cmpOK := types.Comparable(ct) && !containsInterfaceOrSlice(ct, 0)
 				if p, isPtr := ct.(*types.Pointer); isPtr {
